@@ -97,3 +97,150 @@ mod verif_kani_num {
         assert!(d.exp == exp);
     }
 }
+
+#[cfg(kani)]
+mod verif_kani_bounds {
+    use super::*;
+    use crate::json::schema::NumberSchema;
+
+    fn any_f64_no_nan() -> f64 {
+        let x: f64 = kani::any();
+        kani::assume(!x.is_nan());
+        x
+    }
+    fn any_opt_f64() -> Option<f64> {
+        if kani::any() { Some(any_f64_no_nan()) } else { None }
+    }
+    fn any_bounds(integer: bool) -> NumberSchema {
+        NumberSchema {
+            minimum: any_opt_f64(),
+            maximum: any_opt_f64(),
+            exclusive_minimum: any_opt_f64(),
+            exclusive_maximum: any_opt_f64(),
+            integer,
+            multiple_of: None,
+        }
+    }
+    fn sat_lower(s: &NumberSchema, x: f64) -> bool {
+        s.minimum.map_or(true, |m| x >= m) && s.exclusive_minimum.map_or(true, |m| x > m)
+    }
+    fn sat_upper(s: &NumberSchema, x: f64) -> bool {
+        s.maximum.map_or(true, |m| x <= m) && s.exclusive_maximum.map_or(true, |m| x < m)
+    }
+
+    /// Loop-free, all f64 (NaN excluded): x satisfies `minimum` and `exclusiveMinimum`  <=>  x satisfies the
+    /// single (bound, exclusive) pair returned by get_minimum.  Complete.
+    #[kani::proof]
+    fn get_minimum_tightest() {
+        let s = any_bounds(kani::any());
+        let x = any_f64_no_nan();
+        kani::cover!(s.minimum.is_some() && s.exclusive_minimum.is_some());
+        let want = sat_lower(&s, x);
+        let got = match s.get_minimum() {
+            (None, _) => true,
+            (Some(b), true) => x > b,
+            (Some(b), false) => x >= b,
+        };
+        assert!(want == got);
+    }
+
+    #[kani::proof]
+    fn get_maximum_tightest() {
+        let s = any_bounds(kani::any());
+        let x = any_f64_no_nan();
+        kani::cover!(s.maximum.is_some() && s.exclusive_maximum.is_some());
+        let want = sat_upper(&s, x);
+        let got = match s.get_maximum() {
+            (None, _) => true,
+            (Some(b), true) => x < b,
+            (Some(b), false) => x <= b,
+        };
+        assert!(want == got);
+    }
+
+    const LIM: f64 = 9007199254740991.0; // 2^53 - 1: below it b +/- 1.0 is exact for integral b
+
+    fn in_dom(b: Option<f64>) -> bool {
+        b.map_or(true, |v| v >= -LIM && v <= LIM)
+    }
+
+    /// Loop-free: for every integer n with |n| <= 2^53-1 and all (finite: JSON has no infinities) bounds within +/-(2^53-1):
+    /// n satisfies the four keywords  <=>  lo <= n <= hi for the (lo, hi) returned by normalize_integer_bounds.
+    /// Complete on the stated domain (beyond 2^53 an f64 cannot represent b +/- 1; stated, not claimed).
+    #[kani::proof]
+    fn normalize_integer_bounds_exact() {
+        let s = any_bounds(true);
+        kani::assume(in_dom(s.minimum) && in_dom(s.maximum) && in_dom(s.exclusive_minimum) && in_dom(s.exclusive_maximum));
+        let n: i64 = kani::any();
+        kani::assume(n >= -(LIM as i64) && n <= LIM as i64);
+        let x = n as f64;
+        kani::cover!(s.exclusive_minimum.is_some() && s.maximum.is_some());
+        let (lo, hi) = normalize_integer_bounds(&s);
+        let want = sat_lower(&s, x) && sat_upper(&s, x);
+        let got = lo.map_or(true, |l| n >= l) && hi.map_or(true, |h| n <= h);
+        assert!(want == got);
+        assert!(lo.is_some() == (s.minimum.is_some() || s.exclusive_minimum.is_some()));
+        assert!(hi.is_some() == (s.maximum.is_some() || s.exclusive_maximum.is_some()));
+    }
+
+    fn stub_format(_args: core::fmt::Arguments<'_>) -> String {
+        String::new()
+    }
+
+    /// check_number_bounds on integer schemas without multipleOf (error-message formatting stubbed):
+    /// a satisfying integer exists  =>  Ok   (no satisfiable combination is rejected), and
+    /// Ok with both bounds present =>  lo <= hi and lo itself satisfies all four keywords (witness).
+    #[kani::proof]
+    #[kani::stub(alloc::fmt::format, stub_format)]
+    fn check_number_bounds_integer_empty() {
+        let s = any_bounds(true);
+        kani::assume(in_dom(s.minimum) && in_dom(s.maximum) && in_dom(s.exclusive_minimum) && in_dom(s.exclusive_maximum));
+        let n: i64 = kani::any();
+        kani::assume(n >= -(LIM as i64) && n <= LIM as i64);
+        let x = n as f64;
+        let r = check_number_bounds(&s);
+        kani::cover!(r.is_err());
+        kani::cover!(r.is_ok() && s.minimum.is_some() && s.exclusive_maximum.is_some());
+        if sat_lower(&s, x) && sat_upper(&s, x) {
+            assert!(r.is_ok());
+        }
+        if r.is_ok() {
+            let (lo, hi) = normalize_integer_bounds(&s);
+            if let (Some(l), Some(h)) = (lo, hi) {
+                assert!(l <= h);
+                if l >= -(LIM as i64) && l <= LIM as i64 {
+                    let lf = l as f64;
+                    assert!(sat_lower(&s, lf) && sat_upper(&s, lf));
+                }
+            }
+        }
+    }
+
+    /// Same for number (non-integer) schemas: a satisfying x exists => Ok; Ok with both bounds => the interval is non-empty
+    /// (min < max, or min == max with both inclusive).
+    #[kani::proof]
+    #[kani::stub(alloc::fmt::format, stub_format)]
+    fn check_number_bounds_float_empty() {
+        let s = any_bounds(false);
+        let x = any_f64_no_nan();
+        let r = check_number_bounds(&s);
+        kani::cover!(r.is_err());
+        if sat_lower(&s, x) && sat_upper(&s, x) {
+            assert!(r.is_ok());
+        }
+        if r.is_ok() {
+            if let ((Some(lo), xl), (Some(hi), xh)) = (s.get_minimum(), s.get_maximum()) {
+                assert!(lo < hi || (lo == hi && !xl && !xh));
+            }
+        }
+    }
+
+    // vacuity guard: must FAIL
+    #[kani::proof]
+    fn mustfail_get_minimum_prefers_inclusive() {
+        let s = any_bounds(false);
+        if let (Some(_), excl) = s.get_minimum() {
+            assert!(!excl);
+        }
+    }
+}
